@@ -23,7 +23,14 @@ func init() {
 					self := r.Intn(d.nv)
 					pProc := 0.6 + 0.4*r.Float64()
 					var seen []int
-					for _, e := range order {
+					foreignAt := -1 // 1 in 8 scenarios: late ProcessEvent by a non-validator (impl vs model from there)
+					if r.Intn(8) == 0 {
+						foreignAt = len(order)*2/3 + r.Intn(len(order)/3+1)
+					}
+					for j, e := range order {
+						if j == foreignAt && len(seen) > 0 {
+							in = append(in, ";", "PX", strconv.Itoa(seen[r.Intn(len(seen))]), vu.B(r.Intn(2) == 0), ";", "G")
+						}
 						in = append(in, c05EvOp(e)...)
 						seen = append(seen, e.id)
 						if r.Float64() < pProc {
